@@ -1,7 +1,7 @@
 (* C13  Text-selection relations have their documented algebraic meaning.
    Only statements: every theorem is closed by [exact] of a lemma of
    Proofs/Rel.v.  [ws] is the whitespace flag of every codepoint of the text. *)
-From Stam Require Import Base.Tac Model.Rel Spec.RelSpec Proofs.Rel.
+From Stam Require Import Base.Tac Model.Rel Spec.RelSpec Proofs.Rel Model.RelArms Gen.RelPairTable Proofs.AgreeRelPair.
 
 (* model = documented meaning, pairs and sets, every operator and modifier *)
 Theorem C13_pair_spec : forall ws o s r, wf s -> wf r ->
@@ -160,3 +160,23 @@ Proof.
   - intros _. repeat constructor; unfold ts_le; cbn; lia.
   - repeat constructor; unfold wf; cbn; lia.
 Qed.
+
+(* The pair test these theorems are about is the one the source contains now: [pair_arms] is
+   regenerated on every run from the match arms of `impl TestTextSelection for TextSelection { fn test }`
+   (tools/translate_relpair.py); evaluated as Rust evaluates it (first matching arm, short-circuit
+   && and ||, checked usize subtraction) it yields test_pair for every operator, modifier
+   combination, text and pair of selections, and no subtraction in it can underflow. *)
+Theorem C13_code_pair_test_is_the_model : forall ws o s r,
+  interp_pair pair_arms ws o s r = Some (test_pair ws o s r).
+Proof. exact pair_arms_agree. Qed.
+
+Theorem C13_code_pair_test_never_underflows : forall ws o s r, interp_pair pair_arms ws o s r <> None.
+Proof. exact pair_test_never_underflows. Qed.
+
+Theorem C13_code_whitespace_limit : src_whitespace_limit = WHITESPACE_LIMIT.
+Proof. exact ws_limit_agrees. Qed.
+
+(* hence the documented meaning holds of the code's own arms *)
+Theorem C13_code_pair_test_has_documented_meaning : forall ws o s r, wf s -> wf r ->
+  interp_pair pair_arms ws o s r = Some (spec_pair ws o s r).
+Proof. intros ws o s r Hs Hr. rewrite pair_arms_agree. f_equal. apply C13_pair_spec; assumption. Qed.
